@@ -210,7 +210,7 @@ def run_case(run, drv, case_seed, tier):
                 argv += ["--source", iopts["source"]]
             if iopts.get("private"):
                 argv += ["--private"]
-            impl.cli(argv + [name])
+            impl.cli(argv + [name if not name.startswith("-") else "./" + name])
         cli_raw = open(os.path.join(box, "cli.torrent"), "rb").read()
         if kind in ("v1", "a2", "a3"):      # the CLI uses TorrentFile / TorrentAssembler
             check("cli-relative", cli_raw)
